@@ -103,6 +103,11 @@ CHECKS = {
             "For every form/shape the runtime procedure, each source operand's value in the parameter the library declares for it, the documented default for every omitted operand, native POKE / speed-poke handling, device-function inputs and the HBUFF prologue are checked.",
             "Trusted: role table vf/checks/c04.py ROLES (Extended/Super Extended BASIC manuals, DESIGN Appendix B); _ecb_start modelled as storing marker values in the display record.",
             "DESIGN.md §2 C04, Appendix B"),
+    "C05": ("model_checking",
+            "bounded-exhaustive enumeration of statement templates x operand shapes built from convertible functions (single, sibling, nested in each other / in built-ins / in subscripts) with scripted device answers; the BASIC09 model's runtime-call log is compared with the Color BASIC model's evaluation log",
+            "For every program the sequence of runtime procedure calls (name, input arguments) made by the translation must equal Color BASIC's evaluation order (innermost first, left to right, target subscripts before the right-hand side); reading a temporary that was not assigned is reported by the interpreter; final values agree.",
+            "Trusted: evaluation-order rules of the Color BASIC model; device functions answer 10n+1 on their n-th call. STR$'s known trailing blank is neutralised here (judged in C01/C03).",
+            "DESIGN.md §2 C05"),
 }
 
 PENDING_REASON = "check not built yet in this revision (work in progress; will be claimed when its explorer exists)"
